@@ -5,7 +5,7 @@ import importlib
 mods = sys.argv[1].split(',')
 for m in mods: importlib.import_module(m)
 only = sys.argv[2:] 
-items = list(C.REGISTRY.values()) + C.LEMMAS
+items = C.all_contracts() + C.LEMMAS
 for c in items:
     if only and not any(o in c.qual for o in only): continue
     rep = C.verify_contract(c)
